@@ -17,7 +17,7 @@ Docs == {{}, {"None"}, {"False"}, {"any"}}
 Init ==
     /\ \E n \in 1..MaxN, proto \in Protos, nr \in NRetries, d \in Docs :
           P = [proto |-> proto, nRetry |-> nr, clean |-> [i \in 1..n |-> i],
-               cleanRet |-> [kind |-> "ok", errno |-> 0, val |-> "v"], doc |-> d]
+               cleanRet |-> [kind |-> "ok", errno |-> 0, val |-> "v"], doc |-> d, gone |-> FALSE]
     /\ sc \in Scripts(MaxN, Bursts)
     /\ sc.p <= Len(P.clean)
     /\ left = sc.b
@@ -28,17 +28,17 @@ Keep == UNCHANGED <<P, sc>>
 FaultDue == st.pos = sc.p /\ left > 0 /\ st.cc # "Rn"
 
 CSend == /\ st.ph = "idle" /\ st.gave = 0 /\ st.pos < N
-         /\ st' = DoSend(st, P, st.pos + 1, CcOf(st.pos + 1))
+         /\ st' = DoSend(st, P, st.pos + 1, CcOf(st.pos + 1), st.tgt)
          /\ UNCHANGED <<left, extra>> /\ Keep
 CRetry == /\ st.ph = "faulted"
-          /\ st' = IF P.proto = "T4" /\ st.cc = "I" THEN DoSend(st, P, 1000, "R") ELSE DoSend(st, P, st.cur, st.cc)
+          /\ st' = IF P.proto = "T4" /\ st.cc = "I" THEN DoSend(st, P, 1000, "R", st.tgt) ELSE DoSend(st, P, st.cur, st.cc, st.tgt)
           /\ UNCHANGED <<left, extra>> /\ Keep
 CReack == /\ st.ph = "reack"
-          /\ st' = DoSend(st, P, st.cur, "I")
+          /\ st' = DoSend(st, P, st.cur, "I", st.tgt)
           /\ UNCHANGED <<left, extra>> /\ Keep
 \* after giving up the operation may still send clean-up / further commands before it ends
 CDirty == /\ st.ph = "idle" /\ st.gave > 0 /\ extra < 1
-          /\ st' = DoSend(st, P, 500 + extra, "std")
+          /\ st' = DoSend(st, P, 500 + extra, "std", st.tgt)
           /\ extra' = extra + 1 /\ UNCHANGED left /\ Keep
 EnvAnswer == /\ st.ph = "sent" /\ ~FaultDue
              /\ st' = IF P.proto = "T4" /\ st.cc = "I" /\ st.att > 1 /\ st.ex = 0 /\ st.ph = "sent" /\ st.att % 2 = 0
@@ -51,31 +51,36 @@ EnvWtx == /\ st.ph = "sent" /\ P.proto = "T4" /\ st.cc \in {"I", "R"} /\ st.pos 
           /\ st' = DoAnswer(st, P, "wtx", FALSE)
           /\ extra' = 2 /\ UNCHANGED left /\ Keep
 CWtx == /\ st.ph = "wtx"
-        /\ st' = DoSend(st, P, 2000, "S")
+        /\ st' = DoSend(st, P, 2000, "S", st.tgt)
         /\ UNCHANGED <<left, extra>> /\ Keep
 EnvFault == /\ st.ph = "sent" /\ FaultDue
             /\ st' = DoFault(st, P, sc.k, sc.m = "after" /\ (P.proto = "T4" => st.ex = 0))
             /\ left' = left - 1 /\ UNCHANGED extra /\ Keep
+\* the tag code re-selects the tag (after a NAK / to make a new key effective); the tag may have left the field
+CSense == /\ st.ph = "idle" /\ st.pos >= 1 /\ st.gave = 0 /\ extra = 0
+          /\ \E res \in BOOLEAN : st' = DoSense(st, P, res)
+          /\ extra' = 3 /\ UNCHANGED left /\ Keep
 Rets == IF st.gave = 0 THEN {P.cleanRet}
-        ELSE {[kind |-> "tagerr", errno |-> ErrnoOf(st.lastGive), val |-> "-"]}
+        ELSE {[kind |-> "tagerr", errno |-> IF st.lastGive = "gone" THEN 0 ELSE ErrnoOf(st.lastGive), val |-> "-"]}
              \cup {[kind |-> "ok", errno |-> 0, val |-> v] : v \in P.doc \ {"any"}}
              \cup (IF "any" \in P.doc THEN {[kind |-> "ok", errno |-> 0, val |-> "partial"]} ELSE {})
 CRet == /\ st.ph = "idle" /\ (st.gave > 0 \/ st.pos = N)
-        /\ \E r \in Rets : st' = DoRet(st, P, r)
+        /\ \E r \in Rets : st' = DoRet(st, P, r, st.tgt)
         /\ UNCHANGED <<left, extra>> /\ Keep
 Done == st.ph = "done" /\ UNCHANGED vars
 
 \* ---- rule breaking client (witnesses only) ---------------------------------------------------------
-BResend == st.ph = "idle" /\ st.pos >= 1 /\ ~st.dirty /\ st' = DoSend(st, P, st.cur, st.cc)
-BOver == st.ph = "faulted" /\ st' = [DoSend(st, P, st.cur, st.cc) EXCEPT !.att = 4]     \* a fourth attempt
-BNoRetry == st.ph = "faulted" /\ st' = DoRet([st EXCEPT !.gave = 1, !.lastGive = sc.k], P, [kind |-> "tagerr", errno |-> ErrnoOf(sc.k), val |-> "-"])
-BRaw == st.ph = "idle" /\ st.gave > 0 /\ st' = DoRet(st, P, [kind |-> "raw", errno |-> 0, val |-> "TimeoutError"])
-BWrongErrno == st.ph = "idle" /\ st.gave > 0 /\ st' = DoRet(st, P, [kind |-> "tagerr", errno |-> ErrnoOf(st.lastGive) - 1, val |-> "-"])
-BSwallow == st.ph = "idle" /\ st.gave > 0 /\ P.doc = {} /\ st' = DoRet(st, P, P.cleanRet)
+BResend == st.ph = "idle" /\ st.pos >= 1 /\ ~st.dirty /\ st' = DoSend(st, P, st.cur, st.cc, st.tgt)
+BOver == st.ph = "faulted" /\ st' = [DoSend(st, P, st.cur, st.cc, st.tgt) EXCEPT !.att = 4]     \* a fourth attempt
+BNoRetry == st.ph = "faulted" /\ st' = DoRet([st EXCEPT !.gave = 1, !.lastGive = sc.k], P, [kind |-> "tagerr", errno |-> ErrnoOf(sc.k), val |-> "-"], st.tgt)
+BRaw == st.ph = "idle" /\ st.gave > 0 /\ st' = DoRet(st, P, [kind |-> "raw", errno |-> 0, val |-> "TimeoutError"], st.tgt)
+BWrongErrno == st.ph = "idle" /\ st.gave > 0 /\ st.lastGive # "gone" /\ st' = DoRet(st, P, [kind |-> "tagerr", errno |-> ErrnoOf(st.lastGive) - 1, val |-> "-"], st.tgt)
+BSwallow == st.ph = "idle" /\ st.gave > 0 /\ P.doc = {} /\ st' = DoRet(st, P, P.cleanRet, st.tgt)
+BStale == st.ph = "idle" /\ ~st.tgt /\ st' = DoRet(st, P, [kind |-> "ok", errno |-> 0, val |-> "False"], TRUE)
 BTwice == st.ph = "idle" /\ st.pos >= 1 /\ st.ex = 1 /\ st' = VIf([st EXCEPT !.ex = 2], 2 > 1 + st.fAfter, "executed-twice")
-Bug == Buggy /\ (BResend \/ BOver \/ BNoRetry \/ BRaw \/ BWrongErrno \/ BSwallow \/ BTwice) /\ UNCHANGED <<left, extra>> /\ Keep
+Bug == Buggy /\ (BResend \/ BOver \/ BNoRetry \/ BRaw \/ BWrongErrno \/ BSwallow \/ BTwice \/ BStale) /\ UNCHANGED <<left, extra>> /\ Keep
 
-Next == CSend \/ CRetry \/ CReack \/ CDirty \/ EnvAnswer \/ EnvFault \/ EnvWtx \/ CWtx \/ CRet \/ Done \/ Bug
+Next == CSend \/ CRetry \/ CReack \/ CDirty \/ EnvAnswer \/ EnvFault \/ EnvWtx \/ CWtx \/ CSense \/ CRet \/ Done \/ Bug
 Spec == Init /\ [][Next]_vars /\ WF_vars(Next)
 
 Bounded == BoundedP(st, P)
@@ -83,13 +88,14 @@ NoResendAfterAnswer == NoResendAfterAnswerP(st)
 Retries == RetriesP(st)
 OnlyTagError == OnlyTagErrorP(st)
 AtMostOncePerAnswer == AtMostOncePerAnswerP(st)
+TargetFollowsSense == TargetFollowsSenseP(st)
 NoViol == st.viol = {}
 Terminates == <>(st.ph = "done")
 \* a burst shorter than the budget is absorbed: the clean result is returned
-Absorbed == (st.ph = "done" /\ sc.b < Budget(P.proto, CcOf(sc.p), P.nRetry) /\ ~(P.proto = "T4")) => st.ret = P.cleanRet
+Absorbed == (st.ph = "done" /\ st.tgt /\ sc.b < Budget(P.proto, CcOf(sc.p), P.nRetry) /\ ~(P.proto = "T4")) => st.ret = P.cleanRet
 \* a burst that exhausts the budget ends with the matching TagCommandError or the documented value
 GaveUpOutcome == (st.ph = "done" /\ st.gave > 0) =>
-                    \/ st.ret.kind = "tagerr" /\ st.ret.errno = ErrnoOf(sc.k)
+                    \/ st.ret.kind = "tagerr" /\ (IF st.lastGive = "gone" THEN st.ret.errno = 0 ELSE st.ret.errno = ErrnoOf(sc.k))
                     \/ st.ret.kind = "ok" /\ (st.ret.val \in P.doc \/ "any" \in P.doc)
 
 \* witnesses (must be violated)
@@ -98,5 +104,6 @@ W_Doc == ~(st.ph = "done" /\ st.gave > 0 /\ st.ret.kind = "ok")
 W_AbsorbAfter == ~(st.ph = "done" /\ st.gave = 0 /\ st.fAfter >= 2)
 W_Rack == ~(st.ph = "reack")
 W_WtxFault == ~(P.proto = "T4" /\ extra = 2 /\ st.ph = "faulted")
+W_Gone == ~(st.ph = "done" /\ ~st.tgt /\ st.ret.kind = "ok")
 W_Passive == ~(P.proto = "T2" /\ st.cc = "ssel2" /\ st.ph = "idle" /\ st.gave = 0 /\ sc.p = 2 /\ sc.k = "timeout" /\ left < sc.b)
 =============================================================================
